@@ -148,7 +148,9 @@ def pairs(a, b):
 def compare_with_fresh(root, FST, mode='exec', sample=None, rnd=None, heavy=True):
     """Compare every (sampled) node's battery on the live tree with a fresh parse of root.src.
     Returns (n_compared, first_difference | None) where difference = (node class, path, {query: (live, fresh)})."""
-    fresh = FST(root.src, mode)
+    # the tree-wide default indentation unit is a documented construction setting of a tree (inferred from the source only when it is
+    # not given): the fresh tree is built with the live tree's setting so that only cached/linked state is compared
+    fresh = FST(root.src, mode, indent=root.indent)
     idx_l = path_index(root.a)
     idx_f = path_index(fresh.a)
     n = 0
